@@ -44,11 +44,12 @@ PROPS = {
         "assumptions": ["start, end are naturals (covers all u64)"],
     },
     "C18": {
-        "modules": ["CasModel.Props.C18"],
+        "modules": ["CasModel.Props.C18", "CasModel.Props.C18Store"],
         "obligations": ["C18_path_roundtrip", "C18_path_roundtrip_prefixed", "C18_path_injective",
-                        "C18_path_shape", "fromCanonicalPath_iff", "decodeHex_toHex"],
-        "full": ["C18_path_roundtrip", "C18_path_injective"],
-        "slices": [("c18", 400, 20000)],
+                        "C18_path_shape", "fromCanonicalPath_iff", "decodeHex_toHex",
+                        "C18_chunk_independent", "C18_put_chunk_independent", "C01_put_then_get"],
+        "full": ["C18_path_roundtrip", "C18_path_injective", "C18_chunk_independent", "C01_put_then_get"],
+        "slices": [("c18", 400, 20000), ("c18chunks", 40, 1500)],
         "trusted": [
             "model of BlobHash::{to_hex, relative_path, from_relative_path}: Path.lean; `hex` crate and Path::components as modelled",
             "blake3::Hasher incrementality (finalize ∘ update* = hash ∘ concat) is the crate's contract; the driver's own BLAKE3 (Blake3.lean, never unfolded in a proof) is compared with the crate on every run",
@@ -60,7 +61,7 @@ PROPS = {
         "obligations": ["C10_truncation_segment", "C10_byte_change_payload", "C10_byte_change_checksum",
                         "readSegmentFuel_truncated", "readSegmentFuel_corrupt", "readSegmentFuel_encodeAll"],
         "full": ["C10_truncation_segment", "C10_byte_change_payload", "C10_byte_change_checksum"],
-        "slices": [("c10frame", 150, 5000)],
+        "slices": [("c10frame", 150, 5000), ("c10log", 25, 400)],
         "trusted": [
             "model of SegmentWriter::write_entry / SegmentReader::read_next_entry: Frame.lean",
             "checksum function H is a parameter with 32-byte output; for a changed payload the theorem assumes H p' ≠ H p (no BLAKE3 collision on that record)",
